@@ -1311,7 +1311,7 @@ def parse_boolean_primitive(  # noqa: PLR0912
     else:
         raise LiquidSyntaxError(
             f"expected a primitive expression, found {token.type_.name}",
-            token=stream.current(),
+            token=token,
         )
 
     while True:
